@@ -324,6 +324,10 @@ func rstmt(b *strings.Builder, s N, ind string) {
 		}
 		h := "func " + s["name"].(string) + "(" + strings.Join(ps, ", ") + ")"
 		rs := list(s["results"])
+		// a function without parameters may be written without the brackets: func name [type] {
+		if bare, _ := s["bare"].(bool); bare && len(ps) == 0 && len(rs) <= 1 {
+			h = "func " + s["name"].(string)
+		}
 		if len(rs) == 1 {
 			h += " " + rs[0].(string)
 		} else if len(rs) > 1 {
